@@ -5,6 +5,11 @@ import json, os, shutil
 import vlib
 
 
+# WindowWhen delivers through a queueing subject (the window): a value sent to a window that has not been handed out yet waits in its backlog and
+# is delivered by the call that hands the window out - the property names that subject as a place where values wait, so SyncRet does not apply
+QUEUEING = {'WindowWhen'}
+
+
 def sync_part(rep, pid, n, seeds, label='multilin-sync'):
     d = vlib.scratch('mls-')
     try:
@@ -23,7 +28,7 @@ def sync_part(rep, pid, n, seeds, label='multilin-sync'):
                 o = json.loads(line)
                 scenarios[o['t']] = o
             for t in sync['order']:
-                if t in plain['rejected']:
+                if t in plain['rejected'] or scenarios[t]['scenario'].get('G') in QUEUEING:
                     continue
                 total += 1
                 k = scenarios[t]['scenario'].get('G')
@@ -32,6 +37,8 @@ def sync_part(rep, pid, n, seeds, label='multilin-sync'):
             rep.sample(dict(driver='drive-multilin -park', seed=s, scenario=scenarios[t0], events=[json.loads(x) for x in sync['traces'][t0][:12]]), maxn=1)
             for t, info in sync['rejected'].items():
                 if t in plain['rejected']:
+                    continue
+                if scenarios[t]['scenario'].get('G') in QUEUEING:
                     continue
                 os.makedirs(os.path.join(vlib.REPLAYS, pid), exist_ok=True)
                 rp = os.path.join(vlib.REPLAYS, pid, 'drive-multilin-sync-seed%d-trace%d.ndjson' % (s, t))
